@@ -4,7 +4,7 @@ from __future__ import annotations
 import json
 
 from .. import gen
-from ..sim import ROOT
+from ..sim import CANON, ROOT
 from . import base
 
 ID = "C19"
@@ -39,6 +39,7 @@ LEVEL_NOTE = ("Differential: cannot see an error common to both channels. The ef
               "trusted observation; options with no effect in the battery are listed in the evidence.")
 
 CONFIG_NAMES = [".fortlsrc", ".fortls.json", ".fortls"]
+ELSEWHERE = ["myconf.json", "conf/settings.json", CANON + "/elsewhere/cfg.json"]
 
 # option -> (kind, v1, v2)   kind: flag/int/str/set/list/json
 OPTIONS = {
@@ -94,11 +95,11 @@ def workspace():
         "  implicit none",
         "  type :: pt",
         "    integer :: mem_a",
-        "    real, pointer, dimension(:) :: mem_b => null()",
+        "    real, dimension(:), pointer :: mem_b => null()",
         "  contains",
         "    procedure :: meth",
         "  end type pt",
-        "  real, allocatable, dimension(:), target :: x",
+        "  real, target, dimension(:), allocatable :: x",
         "  integer :: sizer",
         "  ! a comment line that is moderately long, longer than twenty characters for sure",
         long_line,
@@ -154,7 +155,7 @@ def battery_ops():
         ops.append(gen.did_open(p, ""))
         ops.append(gen.req(rid(), "textDocument/documentSymbol", {"textDocument": {"uri": gen.uri(p)}}))
     ops.append(gen.req(rid(), "workspace/symbol", {"query": ""}))
-    for (li, ch) in [(9, 47), (10, 15), (13, 12), (14, 10), (4, 17), (5, 40), (19, 16), (21, 45)]:
+    for (li, ch) in [(9, 45), (10, 15), (13, 12), (14, 10), (4, 17), (5, 40), (19, 16), (21, 45)]:
         ops.append(gen.positional(rid(), "textDocument/hover", main, li, ch))
     for (li, ch) in [(16, 12), (17, 6), (14, 8), (1, 8), (9, 7)]:
         ops.append(gen.positional(rid(), "textDocument/completion", main, li, ch))
@@ -165,6 +166,14 @@ def battery_ops():
     ch = {"range": {"start": {"line": 0, "character": 0}, "end": {"line": 0, "character": 0}}, "text": "! c\n"}
     ops.append(gen.did_change(main, [ch]))
     ops.append(gen.req(rid(), "textDocument/documentSymbol", {"textDocument": {"uri": gen.uri(main)}}))
+    # the same questions again, now answered from a tree that was parsed inside the server process
+    # (the first one came from the pool workers): every line has moved down by one
+    for (li, ch_) in [(9, 45), (10, 15), (13, 12), (14, 10), (4, 17), (5, 40), (19, 16), (21, 45)]:
+        ops.append(gen.positional(rid(), "textDocument/hover", main, li + 1, ch_))
+    for (li, ch_) in [(16, 12), (17, 6), (14, 8), (1, 8), (9, 7)]:
+        ops.append(gen.positional(rid(), "textDocument/completion", main, li + 1, ch_))
+    for (li, ch_) in [(15, 17), (14, 24), (13, 15)]:
+        ops.append(gen.positional(rid(), "textDocument/signatureHelp", main, li + 1, ch_))
     # options must keep their effect after re-parses (values snapshotted at start-up must not return)
     for p in (f"{ROOT}/pp.F90", f"{ROOT}/low.f90", f"{ROOT}/hh.h"):
         ops.append(gen.did_change(p, [dict(ch)]))
@@ -177,7 +186,7 @@ def battery_ops():
     ops.append(gen.req(rid(), "textDocument/documentSymbol", {"textDocument": {"uri": gen.uri(late)}}))
     ops.append(gen.did_save(f"{ROOT}/pp.F90"))
     ops.append(gen.req(rid(), "workspace/symbol", {"query": ""}))
-    ops.append(gen.positional(rid(), "textDocument/hover", main, 10, 47))
+    ops.append(gen.positional(rid(), "textDocument/hover", main, 10, 45))
     ops += [gen.req(rid(), "shutdown"), gen.note("exit")]
     return ops
 
@@ -185,7 +194,10 @@ def battery_ops():
 def bringup(argv, filecfg_text=None, cfgname=".fortlsrc", faults=None, extra_tree=None):
     tree = workspace()
     if filecfg_text is not None:
-        tree[f"{ROOT}/{cfgname}"] = filecfg_text
+        tree[cfgname if cfgname.startswith("/") else f"{ROOT}/{cfgname}"] = filecfg_text
+        if cfgname in ELSEWHERE and "-c" not in argv:
+            # a configuration file with another name or in another place is named with -c
+            argv = list(argv) + ["-c", cfgname]
     if extra_tree:
         tree.update(extra_tree)
     return {"argv": list(argv), "tree": tree, "ops": battery_ops(), "faults": faults or [],
@@ -251,6 +263,9 @@ def gen_case(g):
         rel, spec = "R5", {"o1": o1, "o2": o2, "v1": OPTIONS[o1][1], "v2": OPTIONS[o2][2],
                            "chan": rng.choice(["cf", "fc"])}
     cfgname = rng.choice(CONFIG_NAMES)
+    if rel in ("R1", "R2", "R3", "R5") and rng.random() < 0.4:
+        # the file may have any name and live anywhere; what it says means the same
+        cfgname = rng.choice(ELSEWHERE)
     A = B = None
     expect_message = False
     if rel == "R0":  # visibility probe (never a violation): does the battery see the option at all?
